@@ -234,6 +234,14 @@ def run_property(prop, tier="quick", seed=0, jobs=None, rebaseline=False, only=N
     import props as props_mod
     meta = props_mod.PROPS[prop]
     timeout_s = 10.0 if tier == "quick" else 60.0
+    # solver budgets are wall-clock: on an overloaded machine (other checks running next to this one) they are
+    # stretched, so that verdicts do not flip with the load
+    try:
+        load = os.getloadavg()[0] / max(1, os.cpu_count() or 1)
+    except OSError:
+        load = 0.0
+    stretch = min(4.0, max(1.0, load))
+    timeout_s *= stretch
     keys = [k for k, c in reg.contracts.items() if prop in props_of(c) and not c.trusted and not c.inline and not k.startswith("model:")]
     if tier != "thorough":
         skipped_slow = [k for k in keys if reg.contracts[k].tier == "thorough"]
@@ -252,7 +260,7 @@ def run_property(prop, tier="quick", seed=0, jobs=None, rebaseline=False, only=N
         if prop in [x.strip() for x in lem["prop"].split(",")] and (not only or only in lem["name"]):
             statics.append(("lemma_spec", i, timeout_s))
     jobs = jobs or min(16, os.cpu_count() or 4)
-    per_fn_budget = 240.0 if tier == "quick" else 1200.0
+    per_fn_budget = (240.0 if tier == "quick" else 1200.0) * stretch
     tasks = [("fn", (k, timeout_s, per_fn_budget - 30), k) for k in keys] + [("static", st, f"{st[0]}#{st[1]}") for st in statics]
     results = run_tasks(tasks, jobs, per_fn_budget)
 
